@@ -113,6 +113,7 @@ func planBlocks(c *core.Ctx) []pblock {
 		gens("mut", c.Q(200000, 5000000), 4000, 0, 4)
 		gens("prefix", c.Q(1500, 30000), 100, 0, 600)
 		gens("raw", c.Q(100000, 3000000), 5000, 0, 1)
+		gens("long", c.Q(640, 6400), 80, 0, 4000)
 		gens("concurrent", c.Q(24, 240), 1, 0, 4000)
 	case "C16":
 		if T {
@@ -123,6 +124,7 @@ func planBlocks(c *core.Ctx) []pblock {
 		gens("prog", c.Q(5000, 60000), 250, 16, 20)
 		gens("mut", c.Q(200000, 5000000), 4000, 0, 2)
 		gens("raw", c.Q(50000, 1000000), 5000, 0, 1)
+		gens("long", c.Q(320, 3200), 80, 0, 4000)
 	}
 	return bs
 }
@@ -175,10 +177,10 @@ func shardPlan(bs []pblock, fast bool) [][]pblock {
 var parseRules = map[string]string{
 	"C06": "abstract spokfiles from the generator (0-6 statements, 0-4 deps/outs/args, 0-5 commands) each written in N random admissible layouts, plus every layout (bounded product of the layout decisions) of small structures; a case = one (structure, layout) text parsed by the real parser and compared with the structure; non-trivial = distinct structures with >=1 statement whose layouts all parsed",
 	"C07": "every string over two 25-symbol class alphabets and one 14-symbol statement-level alphabet up to the tier's length (4/6 resp. 5/7 symbols), generated programs in 2 layouts, seeded mutants of the repository's spokfile/test inputs, comment-position programs; a case = one input run through parse -> format -> parse; non-trivial = distinct inputs (by hash) that parse to >=1 node and were therefore judged",
-	"C08": "the inputs of C07 plus every byte-prefix of generated programs and raw byte strings with 30% bytes >= 0x80; each input parsed twice in a child worker (race build; bulk enumeration on the plain build); batches of mutants are also parsed by 8 goroutines at once and compared with their sequential results; non-trivial = distinct inputs that produce a syntax error whose line/context were checked, or a tree",
+	"C08": "the inputs of C07 plus every byte-prefix of generated programs and raw byte strings with 30% bytes >= 0x80, and mutants stretched by one line or token of 4 KiB - 1 MiB (comment, blanks, identifier, string, multi-byte text); each input parsed twice in a child worker (race build; bulk enumeration on the plain build); batches of mutants are also parsed by 8 goroutines at once and compared with their sequential results; non-trivial = distinct inputs that produce a syntax error whose line/context were checked, or a tree",
 	"C11": "same inputs as C07; a case = parse -> format -> parse -> format, compared byte for byte; non-trivial = distinct inputs that parse to >=1 node and whose formatted text re-parses",
 	"C15": "same inputs as C07 plus a generator placing comments in every syntactic position; non-trivial = distinct inputs that parse and contain >=1 non-empty comment or docstring",
-	"C16": "every string over the class alphabets up to the tier's length, generated programs in 16 layouts (LF/CRLF/mixed, tabs, multi-byte), mutants, raw bytes; a case = one token stream read to its first EOF/ERROR and checked token by token against the input; non-trivial = distinct inputs that yield >=2 tokens",
+	"C16": "every string over the class alphabets up to the tier's length, generated programs in 16 layouts (LF/CRLF/mixed, tabs, multi-byte), mutants (also with a byte-order mark or other invisible characters in front), raw bytes, mutants stretched by one line or token of 4 KiB - 1 MiB; a case = one token stream read to its first EOF/ERROR and checked token by token against the input; non-trivial = distinct inputs that yield >=2 tokens",
 }
 
 func parseRun(c *core.Ctx) bool {
@@ -463,6 +465,31 @@ func (w *pworker) runBlock(b pblock) {
 		for i := 0; i < b.Count; i++ {
 			w.input(gen.RawBytes(r), nil)
 		}
+	case "long":
+		// mutants stretched by one very long line or token, around the buffer sizes tools like to use
+		m := gen.NewMutator(r, w.seeds)
+		for i := 0; i < b.Count; i++ {
+			x := m.Next()
+			n := core.Pick(r, []int{4095, 4096, 4097, 65535, 65536, 65537, 70000, 131073})
+			if r.Chance(2) {
+				n = 1<<20 + 1
+			}
+			at := r.Intn(len(x) + 1)
+			switch r.Intn(5) {
+			case 0: // a long comment line in front
+				x = "# " + strings.Repeat("c", n) + "\n" + x
+			case 1: // a long run of blanks inside a line
+				x = x[:at] + strings.Repeat(" ", n) + x[at:]
+			case 2: // a long identifier
+				x = x[:at] + " " + strings.Repeat("a", n) + " " + x[at:]
+			case 3: // a long string
+				x = x[:at] + "\"" + strings.Repeat("s", n) + "\"" + x[at:]
+			case 4: // a long line of multi-byte text in a comment at the end
+				x = x + "\n# " + strings.Repeat("é", n/2) + "\n"
+			}
+			w.res.Count("inputs_with_a_line_over_64KiB", map[bool]int64{true: 1, false: 0}[n > 65536])
+			w.input(x, nil)
+		}
 	case "concurrent":
 		// the same inputs parsed by several goroutines at once must give what they give one at a time
 		m := gen.NewMutator(r, w.seeds)
@@ -531,6 +558,7 @@ func (w *pworker) input(x string, p *gen.Prog) bool {
 		w.shrunk++
 		clause := v.Clause
 		small := shrinkString(x, func(y string) bool {
+			w.wl.Tick() // progress: each attempt is one more finished oracle call
 			nv := w.judge(y, nil, false)
 			return nv != nil && nv.Clause == clause
 		})
@@ -794,7 +822,7 @@ func oracleC08(x string, res *core.ShardResult) *core.Violation {
 		}
 	}
 	if !ok {
-		return &core.Violation{Clause: "located-error", Detail: fmt.Sprintf("error for %s (%d lines) does not cite a line in range and quote it: %s", qx, len(lines), strconv.Quote(msg))}
+		return &core.Violation{Clause: "located-error", Detail: fmt.Sprintf("error for %s (%d lines) does not cite a line in range and quote it: %s", qx, len(lines), core.Trunc(strconv.Quote(msg), 800))}
 	}
 	kind := msg
 	if i := strings.Index(kind, "(Line"); i >= 0 {
@@ -810,7 +838,9 @@ func oracleC08(x string, res *core.ShardResult) *core.Violation {
 		return r
 	}, kind))
 	res.Distinct(core.Hash64(x))
-	res.Sample(map[string]any{"input": x, "error": msg}, 3)
+	if len(x) < 2000 {
+		res.Sample(map[string]any{"input": x, "error": msg}, 3)
+	}
 	return nil
 }
 
@@ -869,7 +899,9 @@ func oracleC16(x string, res *core.ShardResult) *core.Violation {
 	res.Count("tokens_checked", int64(ntok))
 	if ntok >= 2 {
 		res.Distinct(core.Hash64(x))
-		res.Sample(map[string]any{"input": x, "tokens": ntok}, 3)
+		if len(x) < 2000 {
+			res.Sample(map[string]any{"input": x, "tokens": ntok}, 3)
+		}
 	}
 	return nil
 }
@@ -983,11 +1015,13 @@ func commentProgram(r *core.Rng) (string, []string) {
 // shrinkString reduces a failing input (bounded number of oracle calls).
 func shrinkString(x string, fails func(string) bool) string {
 	calls := 0
+	budget := 16 << 20 // bytes handed to the oracle: a 1 MiB input gets ~25 attempts, a short one 1500
 	try := func(y string) bool {
-		if calls > 1500 {
+		if calls > 1500 || budget < 0 {
 			return false
 		}
 		calls++
+		budget -= len(y) + 1
 		return fails(y)
 	}
 	cur := x
